@@ -593,9 +593,14 @@ def check_c19(case, stats=None):
         for m in list(W.state_hist):
             if m == x or m in W.batching:
                 continue
-            iv = [(s0, s1, fl) for (mm, t, s0, s1, fl) in subs_t if mm == m and t == topic]
+            # (a subscription by regular expression matching the system topic counts like the literal one)
+            iv = [(s0, s1, fl) for (mm, t, s0, s1, fl) in subs_t if mm == m and t is not None and topic_matches(t, topic)]
             ok = any(s0 < min(i, b) - 3 and (s1 is None or s1 > e) and not (fl & (SRC_LOW | SRC_ONESHOT)) for (s0, s1, fl) in iv)
             if not ok:
+                continue
+            # a one-shot subscription that matches too may be the one a message is attached to when it is sent (the literal one
+            # is looked up first) - and that message is dropped if the subscription has fired by the time it is read
+            if any((fl & SRC_ONESHOT) and s0 <= e and (s1 is None or s1 >= min(i, b) - 3) for (s0, s1, fl) in iv):
                 continue
             lo = min(i, b) - 1
             # a subscriber paused and resumed in between keeps its mail (ordinary delivery rules): still required, as long
@@ -603,6 +608,17 @@ def check_c19(case, stats=None):
             # (a subscriber that is PAUSED when it happens is sent the notification too)
             if W.state_at(m, lo) not in ("R", "P") or W.left_active_between(m, lo, e) or W.state_at(m, e) != "R":
                 continue
+            if W.state_at(m, lo) == "P":
+                # a paused module's mailbox is discarded by the final flush of a run: an occurrence that may have happened
+                # inside such a flush (observed between the last time a run was seen looping and the observation following
+                # its end) is not owed to a subscriber that was PAUSED then
+                in_flush = False
+                for b0, e0, _r0 in W.loop_runs:
+                    last_loop = max([j for j, f in W.loop_obs if b0 <= j <= e0 and f] or [b0])
+                    if last_loop < i <= e0 + 1:
+                        in_flush = True
+                if in_flush:
+                    continue
             fstart = next((j for j, f in W.loop_obs if b < j <= e and not f), None)
             if fstart is not None and W.state_at(m, fstart) != "R":
                 continue        # PAUSED when the loop stopped polling: its mail is discarded by the final flush
